@@ -70,6 +70,8 @@ func (g *genCtx) body(n, flavour int) []byte {
 			b[i] = v
 		case 1:
 			b[i] = []byte{0x7e, 0x7d, 0x01, 0x02, 0x7e, 0x7d}[g.r.intn(6)]
+		case 3: // nothing but escape bytes: the escaped frame is about twice the body
+			b[i] = []byte{0x7e, 0x7d}[g.r.intn(2)]
 		default:
 			if g.r.chance(15) {
 				b[i] = []byte{0x7e, 0x7d, 0x01, 0x02}[g.r.intn(4)]
@@ -110,8 +112,25 @@ func (g *genCtx) wellFormedBody(id uint16, ver19 bool, phone []byte) []byte {
 	r := g.r
 	loc := func() []byte { // 28-byte basic location block
 		b := r.bytes(28)
-		// BCD time YY-MM-DD-hh-mm-ss
+		// alarm and status words: often zero or a single bit (the "alarm raised, then cleared" sequences)
+		for _, off := range []int{0, 4} {
+			switch r.intn(5) {
+			case 0, 1:
+				copy(b[off:], []byte{0, 0, 0, 0})
+			case 2:
+				copy(b[off:], []byte{0, 0, 0, 0})
+				b[off+r.intn(4)] = 1 << uint(r.intn(8))
+			}
+		}
+		// BCD time YY-MM-DD-hh-mm-ss; now and then nibbles that are not decimal digits
 		copy(b[22:], []byte{0x24, 0x10, 0x01, 0x12, 0x30, 0x45})
+		if r.chance(12) {
+			for i := 22; i < 28; i++ {
+				if r.chance(60) {
+					b[i] = []byte{0xaa, 0xa1, 0x1a, 0xff, 0x99, 0x00, 0xfa}[r.intn(7)]
+				}
+			}
+		}
 		return b
 	}
 	switch id {
